@@ -41,6 +41,9 @@ pub struct Profile {
     pub str_mut: bool,
     /// C12: call arguments are wrapped in a tracing identity `spoor(id, v)` so that evaluation order is visible
     pub trace_args: bool,
+    /// C03/C04: after the final expression statement some declarations with calls may follow, so that the value of the
+    /// last expression statement is only kept alive as 'the last statement's value' while collections run (the result is then U1)
+    pub tail_decls: bool,
 }
 
 impl Profile {
@@ -63,6 +66,7 @@ impl Profile {
             alloc_heavy: false,
             str_mut: true,
             trace_args: false,
+            tail_decls: false,
         }
     }
     pub fn scopes() -> Profile {
@@ -78,7 +82,7 @@ impl Profile {
         Profile { name: "calls", max_depth: 4, floats: false, fault: 15, rec_depth: 8, trace_args: true, ..Profile::general() }
     }
     pub fn alloc() -> Profile {
-        Profile { name: "alloc", alloc_heavy: true, fault: 30, ..Profile::general() }
+        Profile { name: "alloc", alloc_heavy: true, fault: 30, tail_decls: true, ..Profile::general() }
     }
     pub fn by_name(n: &str) -> Profile {
         match n {
@@ -678,6 +682,15 @@ impl<'a, 'b> Gen<'a, 'b> {
         }
         let n = self.t.below(self.p.max_block_stmts);
         body.extend(self.stmts(n, d));
+        if *ret == Ty::Null {
+            // a body that ends in a declaration has no value (valueless return)
+            let ty = self.value_ty();
+            let e = self.expr(&ty, d);
+            let nm = self.fresh("slot");
+            body.push(Stmt::Let(nm, e));
+            self.ctxs.pop();
+            return body;
+        }
         let e = self.expr(ret, d);
         if self.t.maybe(60) {
             body.push(Stmt::Return(e));
@@ -706,7 +719,8 @@ impl<'a, 'b> Gen<'a, 'b> {
                 names.push(nm);
             }
         }
-        let ret = match self.t.below(6) {
+        let ret = match self.t.below(if self.p.tail_decls { 7 } else { 6 }) {
+            6 => Ty::Null,
             0..=2 => Ty::Int,
             3 => Ty::Bool,
             4 if self.p.strings => Ty::Str,
@@ -770,6 +784,22 @@ impl<'a, 'b> Gen<'a, 'b> {
             }
             if self.p.floats {
                 kinds.push(Ty::Float);
+            }
+            // now and then an array: a visible array variable, or a literal that mentions the same array twice (aliasing)
+            let arrs: Vec<Var> = self
+                .visible()
+                .into_iter()
+                .filter(|v| matches!(&v.ty, Ty::Arr(e, _) if matches!(**e, Ty::Int | Ty::Str | Ty::Float | Ty::Bool | Ty::Arr(..))))
+                .collect();
+            if self.p.arrays && !arrs.is_empty() && self.t.maybe(60) {
+                let a = self.t.pick(&arrs).name.clone();
+                if self.t.maybe(128) {
+                    args.push(ident(&a));
+                } else {
+                    let b = self.t.pick(&arrs).name.clone();
+                    args.push(array(vec![ident(&a), int(self.t.range(0, 9)), ident(&b), ident(&a)]));
+                }
+                continue;
             }
             let ty = self.t.pick(&kinds).clone();
             args.push(self.expr(&ty, d.saturating_sub(1)));
@@ -1029,6 +1059,22 @@ impl<'a, 'b> Gen<'a, 'b> {
             self.expr(&ty, 2)
         };
         prog.push(es(fin));
+        if self.p.tail_decls && self.t.maybe(90) {
+            // declarations (with calls) after the last expression statement
+            let fs: Vec<Var> = self.visible().into_iter().filter(|v| matches!(v.ty, Ty::Fun(..))).collect();
+            let n = 1 + self.t.below(2);
+            for _ in 0..n {
+                let nm = self.fresh("staart");
+                let e = if !fs.is_empty() && self.t.maybe(220) {
+                    let f = self.t.pick(&fs).clone();
+                    self.call_of(&f, 2)
+                } else {
+                    let ty = self.value_ty();
+                    self.expr(&ty, 2)
+                };
+                prog.push(Stmt::Let(nm, e));
+            }
+        }
         prog
     }
 }
